@@ -174,4 +174,209 @@ theorem markOne_measure {c : Ctx} {root} (h : CInv c root []) (hm : c.phase = .m
       simp only [Bool.false_eq_true, if_false]
       omega
 
+
+/-- With the invariant, a `mark_one` that traced something and *returned normally* was not the
+    faulted one. -/
+theorem markOne_continue_fault {c : Ctx} {root} (h : CInv c root []) (hg : c.grayRemaining = true)
+    (f : Option Nat) (hfl : (c.markOne root f).2 = .continue) :
+    c.markOne root f = c.markOne root none := by
+  cases f with
+  | none => rfl
+  | some j =>
+    exfalso
+    have hobj : ∀ (c0 : Ctx) (i : Nat), (c0.markObj i (some j)).2 = .continue → c0.heap = c.heap →
+        (i ∈ c.gray ∨ i ∈ c.grayAgain) → False := by
+      intro c0 i hc e1 hi
+      obtain ⟨o, ho, _⟩ := h.qGray i hi
+      have ho0 : c0.heap.get i = some o := by rw [e1]; exact ho
+      unfold Ctx.markObj at hc
+      simp only [Ctx.withMetrics_heap, ho0] at hc
+      cases hc
+    unfold Ctx.markOne at hfl
+    cases hgq : c.gray with
+    | cons i g =>
+      rw [hgq] at hfl
+      simp only at hfl
+      exact hobj _ i hfl rfl (by rw [hgq]; simp)
+    | nil =>
+      rw [hgq] at hfl
+      simp only at hfl
+      cases hga : c.grayAgain with
+      | cons i g =>
+        rw [hga] at hfl
+        simp only at hfl
+        exact hobj _ i hfl rfl (by rw [hga]; simp)
+      | nil =>
+        rw [hga] at hfl
+        simp only at hfl
+        have hr : c.rootNeedsTrace = true := by
+          simpa [Ctx.grayRemaining, hgq, hga] using hg
+        simp only [hr, if_true] at hfl
+        cases hfl
+
+/-- Loop iterations still ahead, at most: the rest of this cycle, plus — when the loop has not yet
+    passed through `Sleep` — one whole further cycle. -/
+def cycleFuel (c : Ctx) (hasSlept : Bool) : Nat :=
+  let n := c.pre.length + c.rest.length
+  match c.phase with
+  | .sleep => 2 * n + 4
+  | .mark => markMeasure c + n + 2 + (if hasSlept then 0 else 2 * n + 5)
+  | .sweep => c.rest.length + 1 + (if hasSlept then 0 else 2 * n + 5)
+  | .drop => 0
+
+theorem all_length (c : Ctx) : c.all.length = c.pre.length + c.rest.length := by
+  simp [Ctx.all]
+
+theorem markMeasure_le (c : Ctx) : markMeasure c ≤ c.pre.length + c.rest.length + 1 := by
+  have := NB_le_length c
+  rw [all_length] at this
+  unfold markMeasure
+  split <;> omega
+
+theorem sweepOne_lengths {c : Ctx} (i : Nat) (r : List Nat) (hr : c.rest = i :: r) :
+    c.sweepOne.1.rest = r ∧ c.sweepOne.1.pre.length ≤ c.pre.length + 1 ∧
+    c.sweepOne.1.pre.length + c.sweepOne.1.rest.length ≤ c.pre.length + c.rest.length := by
+  unfold Ctx.sweepOne
+  rw [hr]
+  simp only
+  repeat' split
+  all_goals (simp <;> try omega)
+
+/-- **The fuel suffices.**  For every state satisfying the invariant, every `RunUntil`, `Stop`,
+    fault position and trace count, a loop started with more fuel than `cycleFuel` never runs
+    out of it. -/
+theorem collectLoop_fuel {root ru stop fault} (fuel : Nat) :
+    ∀ (c : Ctx) (hs : Bool) (k : Nat), CInv c root [] → cycleFuel c hs < fuel →
+      (Ctx.collectLoop root ru stop fault fuel c hs k).2 ≠ .outOfFuel := by
+  induction fuel with
+  | zero => intro c hs k _ hf; omega
+  | succ fuel ih =>
+    intro c hs k h hf
+    unfold Ctx.collectLoop
+    cases hp : c.phase with
+    | drop => exact absurd hp h.notDrop
+    | sleep =>
+      simp only
+      have h1 : CInv (c.switch .mark) root [] := wake_spec h hp
+      split
+      · simp
+      · apply ih _ _ _ h1
+        have hm := markMeasure_le (c.switch .mark)
+        have e1 : (c.switch .mark).pre = c.pre := rfl
+        have e2 : (c.switch .mark).rest = c.rest := rfl
+        have e3 : (c.switch .mark).phase = .mark := rfl
+        unfold cycleFuel at hf ⊢
+        rw [hp] at hf
+        rw [e3]
+        simp only [e1, e2] at hm ⊢
+        simp only at hf
+        simp only [if_true]
+        omega
+    | mark =>
+      simp only
+      cases hg : c.grayRemaining with
+      | false =>
+        rw [markOne_break _ hg]
+        simp only
+        split
+        · simp
+        · have hg' : (c.step 'b').grayRemaining = false := hg
+          have h1 : CInv (c.step 'b') root [] := h.sameView (sameView_step c 'b')
+          have h2 : CInv (c.step 'b').enterSweep root [] := enterSweep_spec h1 hp hg'
+          split
+          · simp
+          · apply ih _ _ _ h2
+            have hrn : c.rest = [] := h.restNil (by rw [hp]; simp)
+            have e1 : (c.step 'b').enterSweep.pre = [] := rfl
+            have e2 : (c.step 'b').enterSweep.rest = c.pre ++ c.rest := rfl
+            have e3 : (c.step 'b').enterSweep.phase = .sweep := rfl
+            unfold cycleFuel at hf ⊢
+            rw [hp] at hf
+            rw [e3]
+            simp only [e1, e2, List.length_append, List.length_nil] at ⊢
+            simp only at hf
+            split at hf <;> simp_all <;> omega
+      | true =>
+        have hnb := markOne_not_break (root := root) (faultAt fault k) hg
+        cases hfl : (c.markOne root (faultAt fault k)).2 with
+        | «break» => exact absurd hfl hnb
+        | unwind =>
+          simp
+        | «continue» =>
+          have heq := markOne_continue_fault h hg _ hfl
+          simp only []
+          split
+          · simp
+          · have hsp := markOne_spec h hp none (root := root)
+            have hms := markOne_measure h hp hg (root := root)
+            rw [heq]
+            apply ih _ _ _ hsp.1
+            have f := hsp.2
+            unfold cycleFuel at hf ⊢
+            rw [hp] at hf
+            rw [f.phase, hp, f.pre, f.rest]
+            simp only at hf ⊢
+            omega
+    | sweep =>
+      simp only
+      split
+      · simp
+      · cases hr : c.rest with
+        | nil =>
+          rw [sweepOne_end hr]
+          simp only
+          have h1 : CInv (c.step 'e') root [] := h.sameView (sameView_step c 'e')
+          have h2 : CInv ((c.step 'e').enterSleep hs) root [] := enterSleep_spec h1 hp hr hs
+          split
+          · simp
+          · split
+            · split <;> simp
+            · split
+              · simp
+              · apply ih _ _ _ h2
+                rename_i hns _
+                have e1 : ((c.step 'e').enterSleep hs).pre = c.pre := rfl
+                have e2 : ((c.step 'e').enterSleep hs).rest = c.rest := rfl
+                have e3 : ((c.step 'e').enterSleep hs).phase = .sleep := rfl
+                unfold cycleFuel at hf ⊢
+                rw [hp] at hf
+                rw [e3]
+                simp only [e1, e2] at ⊢
+                simp only at hf
+                simp_all
+                omega
+        | cons i rest' =>
+          have hne : c.rest ≠ [] := by rw [hr]; simp
+          have hfl := sweepOne_flow hne
+          have hsp := sweepOne_spec h hp
+          obtain ⟨l1, l2, l3⟩ := sweepOne_lengths i rest' hr
+          rw [show c.sweepOne = (c.sweepOne.1, c.sweepOne.2) from rfl, hfl]
+          simp only
+          split
+          · simp
+          · apply ih _ _ _ hsp.1
+            unfold cycleFuel at hf ⊢
+            rw [hp] at hf
+            rw [hsp.2]
+            simp only at hf ⊢
+            rw [hr] at hf l3
+            rw [l1] at l3 ⊢
+            simp only [List.length_cons] at hf l3
+            split <;> simp_all <;> omega
+
+end GcArena
+
+namespace GcArena
+
+/-- `Context::do_collection` terminates: the fuel `Ctx.doCollection` supplies is never used up. -/
+theorem doCollection_terminates {c : Ctx} {root} (h : CInv c root []) (ru : RunUntil) (stop : Stop)
+    (fault : TraceFault) : (c.doCollection root ru stop fault).2 ≠ .outOfFuel := by
+  unfold Ctx.doCollection
+  split
+  · simp
+  · apply collectLoop_fuel _ _ _ _ h
+    have hm := markMeasure_le c
+    unfold cycleFuel Ctx.fuelBound
+    cases c.phase <;> simp <;> omega
+
 end GcArena
